@@ -104,6 +104,11 @@ def world_job(job):
             scenarios = job["scenarios"]
         else:
             scenarios = mod.gen_scenarios(spec, R.stream(seed, "workload"), job["runs"])
+            for i, sc in enumerate(scenarios):
+                # fault dimension of every REST scenario: what the body of an HTTP error looks like (a front end
+                # answers 502/503/504/404 with HTML or nothing, not with a google.rpc JSON error)
+                if sc.get("client") == "rest" and "http_error_body" not in sc:
+                    sc["http_error_body"] = R.stream(seed, "http-error-body", i).choice([None, None, "html", "empty"])
         res["build_s"] = time.perf_counter() - t0
         seen_rules = set()
         for i, sc in enumerate(scenarios):
@@ -125,6 +130,14 @@ def world_job(job):
             res["interleavings"].add(R.digest(sh["interleaving"])[:16])
             for k, v in sh.get("faults", {}).items():
                 res["faults"][k] = res["faults"].get(k, 0) + v
+            if sc.get("http_error_body"):
+                nb = sum(1 for e in hist if e["k"] == "attempt_end" and e.get("status") not in ("OK", None) and any(
+                    x["k"] == "attempt" and x.get("tr") == "rest" and x.get("n") == e.get("n") and x.get("op") == e.get("op") for x in hist))
+                if nb:
+                    res["faults"]["http_error_with_non_json_body"] = res["faults"].get("http_error_with_non_json_body", 0) + nb
+            nr = sum(1 for e in hist if e["k"] == "credentials_refreshed")
+            if nr:
+                res["faults"]["http_401_credentials_refreshed_and_resent"] = res["faults"].get("http_401_credentials_refreshed_and_resent", 0) + nr
             nc = sum(1 for e in hist if e["k"] == "cancel")
             if nc:
                 res["faults"]["caller_task_cancelled"] = res["faults"].get("caller_task_cancelled", 0) + nc
